@@ -223,7 +223,7 @@ static void _interfaces_init(void) {
 		if (elem || !(elem = malloc(sizeof(*elem) + sizeof(pointer_traits)))) {
 			continue;
 		}
-		*((const void **) &elem->traits) = memcpy(elem + 1, &pointer_traits, sizeof(elem->traits));
+		*((const void **) &elem->traits) = memcpy(elem + 1, &pointer_traits, sizeof(pointer_traits));
 		*((const char **) &elem->name) = core_interfaces[i].name;
 		*((MPT_TYPE(type) *) &elem->type) = core_interfaces[i].type;
 		
